@@ -301,7 +301,8 @@ def run(ctx) -> None:
 
     def non_uod(sid, d, lab):
         nn = gc_.nodes[sid]
-        return nn.kind == "test" and "has_command_name" in norm(nn.ast) and lab == "F"
+        # the false outcome of the has_command_name test itself (in a conjunction the false outcome says nothing about it)
+        return nn.kind == "test" and isinstance(nn.ast, ast.Call) and call_attr(nn.ast) == "has_command_name" and lab == "F"
     p4 = gc_.search([(nt.id, none_lab)], lambda n: n.id == gc_.exit.id, blocked=lambda n: node_calls(n, "_executing_command_done"),
                     blocked_edge=non_uod, follow_exc=False)
     if p4 is None:
